@@ -107,7 +107,7 @@ def _ok(a: dict[str, str], fr: Fragment) -> bool:
     return fr.exclude(a) is None
 
 
-def assignments(fr: Fragment, cap: int = 80) -> tuple[list[dict[str, dict[str, str]]], int, int]:
+def assignments(fr: Fragment, cap: int = 80, seed: int = 0) -> tuple[list[dict[str, dict[str, str]]], int, int]:
     """Greedy pairwise covering design: a list of models, each {slot: {dim: class}}; (models, pairs, uncovered)."""
     dims = _dims(fr)
     order = [k for k in ("name", "value", "attr-name", "role", "op", "type", "fcard", "abs") if k in dims]
@@ -131,7 +131,7 @@ def assignments(fr: Fragment, cap: int = 80) -> tuple[list[dict[str, dict[str, s
         model: dict[str, dict[str, str]] = {}
         used_names: set[str] = set()
         left = set(uncovered)
-        rot = k % len(dims["pos"])                        # (the slot served first gets first pick of the names)
+        rot = (k + 5 * seed) % len(dims["pos"])                        # (the slot served first gets first pick of the names)
         for i, slot in enumerate(dims["pos"][rot:] + dims["pos"][:rot]):
             a: dict[str, str] = {"pos": slot}
             if seeded:
@@ -153,7 +153,7 @@ def assignments(fr: Fragment, cap: int = 80) -> tuple[list[dict[str, dict[str, s
                     continue
                 cands = dims[dname]
                 best, best_gain = None, -1
-                off = (k * 7 + i * 3 + len(dname)) % len(cands)
+                off = ((k + 11 * seed) * 7 + i * 3 + len(dname) + seed) % len(cands)
                 for v in cands[off:] + cands[:off]:
                     if dname == "name" and v in used_names and v != "plain":
                         continue
@@ -300,6 +300,11 @@ def sweep(cd: Any, mb: ModelBuilder, fr: Fragment, owns: tuple[str, ...], rule: 
     from .core import AnalysisError
     from .model import DISCREPANCIES
     models, total, left = assignments(fr, cap)
+    if getattr(cd.ctx, "tier", "quick") == "thorough":
+        # two more covering families under other rotations: the same pairs in other company, i.e. more of the three-way
+        # combinations (still not all of them)
+        for seed in (1, 2):
+            models += assignments(fr, cap, seed)[0]
     if len(models) < floor:
         raise AnalysisError(rule, f"pairwise family has {len(models)} models, fewer than the floor {floor}")
     jobs = min(8, os.cpu_count() or 1, len(models))
